@@ -76,6 +76,8 @@ def check(chk):
         c07e2e.run(chk, thorough)
     finally:
         chk.cov.pop("_pairs", None)
+    from . import c07m
+    c07m.run(chk, thorough)
     chk.assumptions += ["go/types values built by the harness faithfully represent the terms (checked by go/types.Identical on every pair)",
                         "descriptor identity at run time is name identity of the emitted weak-ODR symbol (checked end to end on a sample)"]
 
